@@ -203,7 +203,9 @@ theorem hasEntry_step (c : Cfg) (s : St) (op : Op) (id : Nat) (h : Hash) (D : Na
       · split
         · exact hasEntry_map (fun v _ => keepsEntry_if (keepsEntry_touch h h0 D s.now v)) hh
         · split
-          · exact hasEntry_map (fun v _ => keepsEntry_if (keepsEntry_write h h0 D s.now v)) hh
+          · split
+            · exact hasEntry_map (fun v _ => keepsEntry_if (keepsEntry_write h h0 D s.now v)) hh
+            · exact hh
           · exact hh
   | touch h0 =>
     simp only [step]
